@@ -222,3 +222,4 @@ from . import c19 as _c19, c08 as _c08
 REG.contracts.append(_c19.c_post.contract)
 REG.contracts.append(_c08.c_add.contract)
 REG.contracts.append(_c08.c_add_history.contract)
+REG.contracts.append(_c08.c_change.contract)      # re-binning of the grain-size grid keeps the grains where they are (same contract as C08)
